@@ -12,6 +12,7 @@ from pyasn1.codec.ber import eoo
 from pyasn1.compat.integer import to_bytes
 from pyasn1.compat.octets import (int2oct, oct2int, ints2octs, null,
                                   str2octs, isOctetsType)
+from pyasn1.type import base
 from pyasn1.type import char
 from pyasn1.type import tag
 from pyasn1.type import univ
@@ -543,9 +544,20 @@ class SequenceEncoder(AbstractItemEncoder):
 
             namedTypes = value.componentType
 
-            for idx, component in enumerate(value.values()):
+            for idx in range(len(namedTypes) or len(value)):
+                # do not instantiate absent components of the value being encoded
+                component = value.getComponentByPosition(idx, instantiate=False)
+
                 if namedTypes:
                     namedType = namedTypes[idx]
+
+                    if component is base.noValue:
+                        if namedType.isOptional or namedType.isDefaulted:
+                            if LOG:
+                                LOG('not encoding absent component %r' % (namedType,))
+                            continue
+
+                        component = value.getComponentByPosition(idx)
 
                     if namedType.isOptional and not component.isValue:
                         if LOG:
